@@ -7,6 +7,8 @@
   (partial).
 -/
 import BB.Properties.C12
+import BB.Proofs.G7DFT
+import BB.Proofs.G7Cond
 import BB.Gen.K
 
 namespace BB.C13
@@ -136,5 +138,298 @@ theorem dcgain_guard (g : ℚ) : Gen.dcGainBad g = false ↔ 0 < g := by
 
 /-- exactly the kinds 'HP' and 'LP' are known -/
 theorem kinds : Gen.filterKinds = ["HP", "LP"] := rfl
+
+/-! ## statements on the public operations `applyRC` / `applyCustomC` (round 8) -/
+
+open BB.G7
+
+/-- **rejection at the public operation**: an unknown kind is a `ValueError` for the filter and
+    for the compensation; a DC gain that is not positive is a `ValueError` for the compensation
+    (for both kinds — the check precedes the dispatch) -/
+theorem applyRC_rejects (x : ZMod N → ℂ) (SR fc : ℝ) (order : ℤ) (kind : String) (DCgain : ℚ) :
+    (kind ≠ "HP" → kind ≠ "LP" → ∀ inverse, applyRC inverse x SR kind fc order DCgain = .error .value) ∧
+    (DCgain ≤ 0 → applyRC true x SR kind fc order DCgain = .error .value) :=
+  ⟨fun h1 h2 inv => (applyRC_error_iff inv x SR fc kind order DCgain).mpr (Or.inl ⟨h1, h2⟩),
+   fun h => (applyRC_error_iff true x SR fc kind order DCgain).mpr (Or.inr ⟨rfl, h⟩)⟩
+
+example : ("BP" : String) ≠ "HP" ∧ ("BP" : String) ≠ "LP" ∧ (0 : ℚ) ≤ 0 := by decide
+
+/-- a zero DC gain — the default of `applyRCFilter` — is accepted by the filter -/
+theorem applyRC_forward_accepts_zero_dc (x : ZMod N → ℂ) (SR fc : ℝ) (order : ℤ) :
+    ∃ y, applyRC false x SR "HP" fc order 0 = .ok y :=
+  (applyRC_ok_iff false x SR fc "HP" order 0).mpr ⟨Or.inl rfl, fun h => by cases h⟩
+
+/-- **round trip on the public operations**, in either order of composition (`first = false`:
+    filter then compensation; `first = true`: compensation then filter), same kind, cut-off,
+    order and DC gain: every bin other than Nyquist is restored -/
+theorem applyRC_roundtrip (first : Bool) (x y z : ZMod N → ℂ) (hx : IsReal x) (SR fc : ℝ) (kind : String) (order : ℤ)
+    (DCgain : ℚ) (h1 : applyRC first x SR kind fc order DCgain = .ok y)
+    (h2 : applyRC (!first) y SR kind fc order DCgain = .ok z) (k : ZMod N) (hny : 2 * k.val ≠ N) :
+    𝓕 z k = 𝓕 x k := by
+  have hd : 0 < DCgain := by
+    cases first
+    · exact ((applyRC_ok_iff true y SR fc kind order DCgain).mp ⟨z, h2⟩).2 rfl
+    · exact ((applyRC_ok_iff true x SR fc kind order DCgain).mp ⟨y, h1⟩).2 rfl
+  have hb := inverse_no_zero_division (N := N) kind SR fc DCgain hd k
+  obtain ⟨hy, b1⟩ := applyRC_bins first x y hx SR fc kind order DCgain h1
+  obtain ⟨_, b2⟩ := applyRC_bins (!first) y z hy SR fc kind order DCgain h2
+  rw [b2 k hny, b1 k hny, mul_assoc, ← zpow_add₀ hb]
+  cases first <;> simp
+
+/-- the second call of a round trip is accepted whenever the DC gain is positive and the first
+    was -/
+theorem applyRC_roundtrip_accepted (first : Bool) (x y : ZMod N → ℂ) (SR fc : ℝ) (kind : String) (order : ℤ)
+    (DCgain : ℚ) (hd : 0 < DCgain) (h1 : applyRC first x SR kind fc order DCgain = .ok y) :
+    ∃ z, applyRC (!first) y SR kind fc order DCgain = .ok z :=
+  (applyRC_ok_iff (!first) y SR fc kind order DCgain).mpr
+    ⟨((applyRC_ok_iff first x SR fc kind order DCgain).mp ⟨y, h1⟩).1, fun _ => hd⟩
+
+example : ∃ z : ZMod 4 → ℂ, applyRC (N := 4) true (fun _ => 1) 10 "HP" 3 1 2 = .ok z :=
+  (applyRC_ok_iff true _ 10 3 "HP" 1 2).mpr ⟨Or.inl rfl, fun _ => by norm_num⟩
+
+/-- odd lengths (no Nyquist bin): the round trip on the public operations restores the signal -/
+theorem applyRC_roundtrip_odd (first : Bool) (x y z : ZMod N → ℂ) (hx : IsReal x) (SR fc : ℝ) (kind : String)
+    (order : ℤ) (DCgain : ℚ) (hodd : N % 2 = 1) (h1 : applyRC first x SR kind fc order DCgain = .ok y)
+    (h2 : applyRC (!first) y SR kind fc order DCgain = .ok z) : z = x := by
+  apply eq_of_dft_eq; funext k
+  exact applyRC_roundtrip first x y z hx SR fc kind order DCgain h1 h2 k (by omega)
+
+/-- **even lengths, the Nyquist bin after a round trip**: it is not restored but multiplied by
+    `Re(w)²/|w|²` (`= cos²(arg w)`), `w = H(f_Nyq)^order` — the price of discarding the
+    imaginary part twice -/
+theorem applyRC_roundtrip_nyquist (x y z : ZMod N → ℂ) (hx : IsReal x) (SR fc : ℝ) (kind : String) (order : ℤ)
+    (DCgain : ℚ) (h1 : applyRC false x SR kind fc order DCgain = .ok y)
+    (h2 : applyRC true y SR kind fc order DCgain = .ok z) (k : ZMod N) (hk : -k = k) :
+    𝓕 z k = 𝓕 x k *
+      ((((rcBase kind SR fc (DCgain : ℝ) k) ^ order).re ^ 2 /
+          Complex.normSq ((rcBase kind SR fc (DCgain : ℝ) k) ^ order) : ℝ) : ℂ) := by
+  obtain ⟨hy, _⟩ := applyRC_bins false x y hx SR fc kind order DCgain h1
+  rw [applyRC_nyquist true y z hy SR fc kind order DCgain h2 k hk,
+    applyRC_nyquist false x y hx SR fc kind order DCgain h1 k hk]
+  simp only [if_true, Bool.false_eq_true, if_false, zpow_neg]
+  rw [← re_mul_re_inv]
+  push_cast; ring
+
+example : -(2 : ZMod 4) = 2 := by decide
+
+/-- for order 1 the factor on the Nyquist bin `k ≠ 0` is `a²/(1+a²)` (HP) resp. `1/(1+a²)` (LP)
+    with `a = 2π·f_k/f_cut` … -/
+theorem nyquist_factor_order_one (SR fc : ℝ) (hSR : SR ≠ 0) (hfc : fc ≠ 0) (DCgain : ℝ) (k : ZMod N) (hk0 : k ≠ 0) :
+    ((baseHP SR fc DCgain k) ^ (1 : ℤ)).re ^ 2 / Complex.normSq ((baseHP SR fc DCgain k) ^ (1 : ℤ)) =
+        (2 * Real.pi * freq N SR k * (1 / fc)) ^ 2 / (1 + (2 * Real.pi * freq N SR k * (1 / fc)) ^ 2) ∧
+    ((baseLP SR fc k) ^ (1 : ℤ)).re ^ 2 / Complex.normSq ((baseLP SR fc k) ^ (1 : ℤ)) =
+        1 / (1 + (2 * Real.pi * freq N SR k * (1 / fc)) ^ 2) := by
+  set a : ℝ := 2 * Real.pi * freq N SR k * (1 / fc) with ha
+  have hpos : (0 : ℝ) < 1 + a ^ 2 := by positivity
+  have ha0 : a ≠ 0 := by
+    rw [ha]
+    have := freq_ne_zero SR hSR k hk0
+    have hpi : (2 * Real.pi : ℝ) ≠ 0 := by positivity
+    exact mul_ne_zero (mul_ne_zero hpi this) (one_div_ne_zero hfc)
+  constructor
+  · rw [zpow_one, baseHP_value SR fc DCgain hSR hfc k hk0, rcHP_value, ← ha, (hp_re_normSq a).1, (hp_re_normSq a).2]
+    field_simp
+  · rw [zpow_one]; unfold baseLP
+    rw [rcLP_value, ← ha, (lp_re_normSq a).1, (lp_re_normSq a).2]
+    field_simp
+
+/-- … which is strictly below 1: **a first-order round trip never restores a non-zero Nyquist
+    component** (the property claims restoration below Nyquist only; this shows the restriction is
+    necessary) -/
+theorem nyquist_not_restored (a : ℝ) (ha : a ≠ 0) : a ^ 2 / (1 + a ^ 2) < 1 ∧ 1 / (1 + a ^ 2) < 1 := by
+  have hpos : (0 : ℝ) < 1 + a ^ 2 := by positivity
+  have h2 : 0 < a ^ 2 := by positivity
+  constructor
+  · rw [div_lt_one hpos]; linarith
+  · rw [div_lt_one hpos]; linarith
+
+/-! ### HP with its default DC gain 0, compensated with a DC gain g: a constant offset in time -/
+
+/-- **the time-domain statement (odd `N`)**: `applyInverseRCFilter(applyRCFilter(x, 'HP'), 'HP',
+    DCgain=g)` with the filter's default DC gain 0 differs from `x` by one real constant -/
+theorem hp_default_offset_time (x : ZMod N → ℂ) (hx : IsReal x) (SR fc g : ℝ) (hSR : SR ≠ 0) (hfc : fc ≠ 0)
+    (order : ℤ) (hodd : N % 2 = 1) :
+    ∃ c : ℝ, ∀ j, applyInvHP (applyHP x SR fc 0 order) SR fc g order j = x j + (c : ℂ) := by
+  apply offset_of_dft_eq x _ hx (rIHP _ _ _ _ _)
+  intro k hk
+  exact hp_default_roundtrip x hx SR fc g hSR hfc order k hk (by omega)
+
+/-- the same on the public operations (the compensation's DC gain must be positive to be accepted) -/
+theorem applyRC_hp_default_offset (x y z : ZMod N → ℂ) (hx : IsReal x) (SR fc : ℝ) (hSR : SR ≠ 0) (hfc : fc ≠ 0)
+    (order : ℤ) (g : ℚ) (hodd : N % 2 = 1) (h1 : applyRCFilter x SR "HP" fc order = .ok y)
+    (h2 : applyInverseRCFilter y SR "HP" fc order g = .ok z) :
+    ∃ c : ℝ, ∀ j, z j = x j + (c : ℂ) := by
+  have hg : 0 < g := ((applyRC_ok_iff true y SR fc "HP" order g).mp ⟨z, h2⟩).2 rfl
+  have e1 := (applyRC_dispatch x SR fc order 0).1
+  have e2 := (applyRC_dispatch y SR fc order g).2.2.1 hg
+  unfold applyRCFilter at h1
+  unfold applyInverseRCFilter at h2
+  rw [e1] at h1; rw [e2] at h2
+  have hy := Except.ok.inj h1
+  have hz := Except.ok.inj h2
+  rw [← hz, ← hy, Rat.cast_zero]
+  exact hp_default_offset_time x hx SR fc g hSR hfc order hodd
+
+example : (∃ y, applyRCFilter (N := 5) (fun _ => 1) 10 "HP" 3 1 = .ok y) ∧
+    (∃ z, applyInverseRCFilter (N := 5) (fun _ => 1) 10 "HP" 3 1 (1/2) = .ok z) :=
+  ⟨(applyRC_ok_iff false _ 10 3 "HP" 1 0).mpr ⟨Or.inl rfl, fun h => by cases h⟩,
+   (applyRC_ok_iff true _ 10 3 "HP" 1 (1/2)).mpr ⟨Or.inl rfl, fun _ => by norm_num⟩⟩
+
+/-- the reverse composition — compensation (DC gain `g`) first, then the default high pass —
+    also restores every bin other than DC and Nyquist … -/
+theorem hp_default_roundtrip_reverse (x : ZMod N → ℂ) (hx : IsReal x) (SR fc g : ℝ) (hSR : SR ≠ 0) (hfc : fc ≠ 0)
+    (order : ℤ) (k : ZMod N) (hk : k ≠ 0) (hny : 2 * k.val ≠ N) :
+    𝓕 (applyHP (applyInvHP x SR fc g order) SR fc 0 order) k = 𝓕 x k := by
+  rw [hp_bins _ (rIHP _ _ _ _ _) SR fc 0 order k hny, inv_hp_bins x hx SR fc g order k hny,
+    baseHP_value SR fc g hSR hfc k hk, baseHP_value SR fc 0 hSR hfc k hk, mul_assoc]
+  have hb : rcHP SR fc (freq N SR k : ℝ) ≠ 0 := by
+    rw [Ne, rcHP_eq_zero_iff _ _ _ hfc]; exact freq_ne_zero SR hSR k hk
+  rw [← zpow_add₀ hb]
+  simp
+
+/-- … so for odd `N` it, too, differs from `x` by one real constant -/
+theorem hp_default_offset_time_reverse (x : ZMod N → ℂ) (hx : IsReal x) (SR fc g : ℝ) (hSR : SR ≠ 0) (hfc : fc ≠ 0)
+    (order : ℤ) (hodd : N % 2 = 1) :
+    ∃ c : ℝ, ∀ j, applyHP (applyInvHP x SR fc g order) SR fc 0 order j = x j + (c : ℂ) := by
+  apply offset_of_dft_eq x _ hx (rHP _ _ _ _ _)
+  intro k hk
+  exact hp_default_roundtrip_reverse x hx SR fc g hSR hfc order k hk (by omega)
+
+/-- for a positive order the compensated signal has no DC component left: the constant is
+    `−mean(x)` -/
+theorem hp_default_roundtrip_dc (x : ZMod N → ℂ) (hx : IsReal x) (SR fc g : ℝ) (order : ℤ) (ho : 0 < order)
+    (hny : 2 * (0 : ZMod N).val ≠ N) :
+    𝓕 (applyInvHP (applyHP x SR fc 0 order) SR fc g order) 0 = 0 := by
+  rw [inv_hp_bins _ (rHP _ _ _ _ _) SR fc g order 0 hny, hp_removes_dc x hx SR fc order ho hny]
+  simp
+
+/-! ### orders compose additively, also for the default high pass -/
+
+/-- HP with the default DC gain 0 and positive orders `m`, `n`: order `m` then order `n` is order
+    `m + n` on every bin other than Nyquist (the DC bin is `0·0 = 0` on both sides) -/
+theorem hp_default_order_add (x : ZMod N → ℂ) (hx : IsReal x) (SR fc : ℝ) (m n : ℤ) (hm : 0 < m) (hn : 0 < n)
+    (k : ZMod N) (hny : 2 * k.val ≠ N) :
+    𝓕 (applyHP (applyHP x SR fc 0 m) SR fc 0 n) k = 𝓕 (applyHP x SR fc 0 (m + n)) k := by
+  rw [hp_bins _ (rHP _ _ _ _ _) SR fc 0 n k hny, hp_bins x hx SR fc 0 m k hny,
+    hp_bins x hx SR fc 0 (m + n) k hny, mul_assoc, zpow_add_of_pos _ m n hm hn]
+
+/-- the same on the public operation, for both kinds: with a non-zero DC gain for all integer
+    orders, with the default DC gain 0 for positive orders -/
+theorem applyRC_order_add (x y z w : ZMod N → ℂ) (hx : IsReal x) (SR fc : ℝ) (kind : String) (m n : ℤ) (DCgain : ℚ)
+    (hg : DCgain ≠ 0 ∨ (0 < m ∧ 0 < n))
+    (h1 : applyRC false x SR kind fc m DCgain = .ok y) (h2 : applyRC false y SR kind fc n DCgain = .ok z)
+    (h3 : applyRC false x SR kind fc (m + n) DCgain = .ok w) (k : ZMod N) (hny : 2 * k.val ≠ N) :
+    𝓕 z k = 𝓕 w k := by
+  obtain ⟨hy, b1⟩ := applyRC_bins false x y hx SR fc kind m DCgain h1
+  obtain ⟨_, b2⟩ := applyRC_bins false y z hy SR fc kind n DCgain h2
+  obtain ⟨_, b3⟩ := applyRC_bins false x w hx SR fc kind (m + n) DCgain h3
+  rw [b2 k hny, b1 k hny, b3 k hny, mul_assoc]
+  simp only [Bool.false_eq_true, if_false]
+  congr 1
+  rcases hg with hg | ⟨hm, hn⟩
+  · have hb : rcBase kind SR fc (DCgain : ℝ) k ≠ 0 := by
+      have hd : ((DCgain : ℚ) : ℝ) ≠ 0 := by exact_mod_cast hg
+      unfold rcBase; split
+      · exact baseHP_ne_zero SR fc _ hd k
+      · exact baseLP_ne_zero SR fc k
+    rw [zpow_add₀ hb]
+  · exact zpow_add_of_pos _ m n hm hn
+
+example : ((0 : ℚ) ≠ 0 ∨ ((0 : ℤ) < 1 ∧ (0 : ℤ) < 2)) := Or.inr ⟨by decide, by decide⟩
+
+/-- without the guard the additivity fails in the exact model (and is `nan` in numpy): order 1
+    then order −1 with DC gain 0 leaves `0·0⁻¹ = 0` on the DC bin, order 0 leaves `1` -/
+theorem order_add_guard_needed : (0 : ℂ) ^ (1 : ℤ) * (0 : ℂ) ^ (-1 : ℤ) ≠ (0 : ℂ) ^ ((1 : ℤ) + (-1 : ℤ)) := by
+  simp
+
+/-- on the public operations: the compensation of order `n` is the filter of order `−n` (for a
+    positive DC gain, which the compensation insists on); for an unknown kind both raise -/
+theorem applyRC_inverse_is_negative_order (x : ZMod N → ℂ) (SR fc : ℝ) (kind : String) (n : ℤ) (DCgain : ℚ)
+    (hd : 0 < DCgain) :
+    applyRC true x SR kind fc n DCgain = applyRC false x SR kind fc (-n) DCgain := by
+  unfold applyRC
+  simp [Gen.dcGainBad, hd, rcOrderInverse, rcOrderForward]
+
+/-! ### custom transfer function on the public operation: `invert=True` undoes the application -/
+
+/-- for a positive transfer function (`tf_amp > 0` everywhere) `invert=True` after the plain
+    application — or the other way round (`first = true`) — restores the **whole** signal, for odd
+    and even lengths (the interpolated function is real, so the Nyquist bin is restored too) -/
+theorem applyCustomC_roundtrip (first : Bool) (x y z : ZMod N → ℂ) (hx : IsReal x) (SR : ℚ) (hSR : 0 < SR)
+    (tfFreqs tfAmp : List ℚ) (hpos : ∀ a ∈ tfAmp, 0 < a)
+    (h1 : applyCustomC x SR tfFreqs tfAmp first = .ok y) (h2 : applyCustomC y SR tfFreqs tfAmp (!first) = .ok z) :
+    z = x := by
+  obtain ⟨hs, hne, hlen⟩ := applyCustomC_ok_axis x y SR tfFreqs tfAmp first h1
+  obtain ⟨hy, b1⟩ := applyCustomC_bins x y hx SR hSR tfFreqs tfAmp first h1
+  obtain ⟨_, b2⟩ := applyCustomC_bins y z hy SR hSR tfFreqs tfAmp (!first) h2
+  apply eq_of_dft_eq; funext k
+  have hq : (0 : ℚ) < interpQ tfFreqs tfAmp (absFreqQ N SR k.val) := interpQ_pos tfFreqs tfAmp hs hlen hne hpos _
+  have hb : ((interpQ tfFreqs tfAmp (absFreqQ N SR k.val) : ℚ) : ℂ) ≠ 0 := by exact_mod_cast hq.ne'
+  rw [b2 k, b1 k, mul_assoc, ← zpow_add₀ hb]
+  cases first <;> simp
+
+/-- the second call is accepted whenever the first is (the checks do not look at the signal or at
+    `invert`) -/
+theorem applyCustomC_roundtrip_accepted (first : Bool) (x y : ZMod N → ℂ) (SR : ℚ) (tfFreqs tfAmp : List ℚ)
+    (h1 : applyCustomC x SR tfFreqs tfAmp first = .ok y) : ∃ z, applyCustomC y SR tfFreqs tfAmp (!first) = .ok z :=
+  (applyCustomC_ok_iff y SR tfFreqs tfAmp (!first)).mpr ((applyCustomC_ok_iff x SR tfFreqs tfAmp first).mp ⟨y, h1⟩)
+
+example : ∃ y : ZMod 4 → ℂ, applyCustomC (N := 4) (fun _ => 1) 10 [0, 1, 5] [1, 2, 1/2] false = .ok y :=
+  (applyCustomC_ok_iff _ 10 [0, 1, 5] [1, 2, 1/2] false).mpr ⟨by decide +kernel, rfl⟩
+
+example : ∀ a ∈ ([1, 2, 1/2] : List ℚ), 0 < a := by decide +kernel
+
+/-- what the guard is for: with a transfer function that vanishes at some `|f_k|`, numpy's
+    `transferfun ** -1` is `inf` there; Lean's `0⁻¹ = 0` would instead silently delete the bin -/
+theorem custom_invert_zero_artifact : ((0 : ℚ) : ℂ) ^ (-1 : ℤ) = 0 := by simp
+
+/-! ### conditioning: how much the compensation amplifies an error of its input -/
+
+/-- the bound on the amplification per order: `√(1 + (f_cut·N/(2π·SR))²)` for HP (attained at the
+    lowest non-zero frequency `SR/N`), `√(1 + (π·SR/f_cut)²)` for LP (attained at Nyquist) -/
+noncomputable def kappa (kind : String) (N : ℕ) (SR fc : ℝ) : ℝ :=
+  if kind = "HP" then Real.sqrt (1 + (fc * N / (2 * Real.pi * SR)) ^ 2)
+  else Real.sqrt (1 + (Real.pi * SR / fc) ^ 2)
+
+/-- two inputs of the compensation (say the exactly filtered signal and the one the floating-point
+    filter delivered): in every bin other than Nyquist their difference comes out multiplied by
+    exactly `|H(f_k)|⁻¹` per order -/
+theorem compensation_error_bins (y y2 z z2 : ZMod N → ℂ) (hy : IsReal y) (hy2 : IsReal y2) (SR fc : ℝ) (kind : String)
+    (order : ℤ) (DCgain : ℚ) (h1 : applyRC true y SR kind fc order DCgain = .ok z)
+    (h2 : applyRC true y2 SR kind fc order DCgain = .ok z2) (k : ZMod N) (hny : 2 * k.val ≠ N) :
+    ‖𝓕 z k - 𝓕 z2 k‖ = ‖𝓕 y k - 𝓕 y2 k‖ * ‖(rcBase kind SR fc (DCgain : ℝ) k)⁻¹‖ ^ order := by
+  obtain ⟨_, b1⟩ := applyRC_bins true y z hy SR fc kind order DCgain h1
+  obtain ⟨_, b2⟩ := applyRC_bins true y2 z2 hy2 SR fc kind order DCgain h2
+  rw [b1 k hny, b2 k hny, ← sub_mul, norm_mul]
+  simp only [if_true, norm_zpow, norm_inv, inv_zpow', zpow_neg]
+
+/-- **conditioning bound (partial)**: for an order `n ≥ 0` the difference of two compensated
+    signals is, in every bin other than Nyquist (and other than DC for HP), at most `κⁿ` times the
+    difference of the inputs, `κ = kappa kind N SR f_cut`.
+    Partial: this is the exact propagation of an input perturbation through the compensation; the
+    rounding errors of numpy's `fft`/`ifft` themselves are not modelled (they are measured by the
+    correspondence check). -/
+theorem compensation_conditioning_partial (y y2 z z2 : ZMod N → ℂ) (hy : IsReal y) (hy2 : IsReal y2) (SR fc : ℝ)
+    (hSR : SR ≠ 0) (hfc : fc ≠ 0) (kind : String) (n : ℕ) (DCgain : ℚ)
+    (h1 : applyRC true y SR kind fc (n : ℤ) DCgain = .ok z) (h2 : applyRC true y2 SR kind fc (n : ℤ) DCgain = .ok z2)
+    (k : ZMod N) (hny : 2 * k.val ≠ N) (hk : kind = "HP" → k ≠ 0) :
+    ‖𝓕 z k - 𝓕 z2 k‖ ≤ ‖𝓕 y k - 𝓕 y2 k‖ * (kappa kind N SR fc) ^ n := by
+  rw [compensation_error_bins y y2 z z2 hy hy2 SR fc kind n DCgain h1 h2 k hny, zpow_natCast]
+  apply mul_le_mul_of_nonneg_left _ (norm_nonneg _)
+  apply pow_le_pow_left₀ (norm_nonneg _)
+  unfold rcBase kappa
+  split
+  · rename_i hkind
+    exact baseHP_inv_norm_le SR fc _ hSR hfc k (hk hkind)
+  · exact baseLP_inv_norm_le SR fc k
+
+example : (∃ z : ZMod 5 → ℂ, applyRC (N := 5) true (fun _ => 1) 10 "HP" 3 ((2 : ℕ) : ℤ) 1 = .ok z) ∧
+    (1 : ZMod 5) ≠ 0 ∧ 2 * (1 : ZMod 5).val ≠ 5 :=
+  ⟨(applyRC_ok_iff true _ 10 3 "HP" _ 1).mpr ⟨Or.inl rfl, fun _ => by norm_num⟩, by decide, by decide⟩
+
+/-- on the DC bin of a high pass the amplification is `1/DCgain` per order -/
+theorem compensation_error_dc (SR fc : ℝ) (DCgain : ℚ) :
+    ‖(rcBase (N := N) "HP" SR fc (DCgain : ℝ) 0)⁻¹‖ = |(DCgain : ℝ)|⁻¹ := by
+  rw [(rcBase_kinds SR fc _ 0).1, baseHP_dc, norm_inv, Complex.norm_real, Real.norm_eq_abs]
 
 end BB.C13
